@@ -1,10 +1,10 @@
 // Kani harnesses compiled as `crate::solve::vanilla::verif_kani` (child of src/solve/vanilla.rs).
 #![allow(dead_code, unused_imports, clippy::all)]
 
-#[path = "/verif/kani/vanilla/driver.rs"]
-mod driver;
 #[path = "/verif/kani/vanilla/advance.rs"]
 mod advance;
+#[path = "/verif/kani/vanilla/driver.rs"]
+mod driver;
 #[path = "/verif/kani/vanilla/steps.rs"]
 mod steps;
 #[path = "/verif/kani/vanilla/threads.rs"]
